@@ -37,10 +37,6 @@ struct StaticSubject {
         o.size_hint = size_hint >= 100 ? 100u : std::min(size_hint, 70u);
         o.force_bimodal = size_hint >= 100 && sizeof(K) == 8; // a destination with >= 6*10^4 segments: long select superblocks in its succinct structures
         keys = gen_keys<K>(t, o, meta);
-        // known findings of the classes themselves are excluded as in their own engines
-        const K cap = std::numeric_limits<K>::max() - 16;
-        for (auto &k: keys)
-            if (k > cap) k = cap;
         desc = name + " " + describe_keys(keys, meta);
         if (!execute) return nullptr;
         vf_set_threads(meta.threads);
